@@ -1,6 +1,6 @@
 (* C17 -- What fences does not understand is rejected with its own exception. (error-class lemmas of the models) *)
 From Coq Require Import String.
-From Fences Require Import Format FormatProofs Normalize Regex Grammar ErrClass.
+From Fences Require Import Format FormatProofs Normalize Regex Grammar ErrClass Xml XmlErr.
 
 (* format_parameter_value never fails with a non-library error *)
 Theorem C17_format_no_internal_error : forall name st explode v,
@@ -35,3 +35,22 @@ Theorem C17_grammar_own_exception : forall fuel G start,
   match parse_grammar fuel G start with PyErr _ => False | _ => True end.
 Proof. exact parse_grammar_own. Qed.
 Print Assumptions C17_grammar_own_exception.
+
+(* XML schemas: for every element tree -- any tags, attributes, nesting, any numbers drawn at parse time -- whose restriction
+   facets are well typed (every enumeration has a value, minLength / maxLength are numbers in order, no pattern facet, which
+   is outside the model) the model of parse_xml_schema returns a graph, runs out of recursion depth, or fails with the
+   library's XmlSchemaException / ResolveReferenceException: unknown tags, unconsumed attributes, missing names, unknown
+   occurrence bounds are all rejected that way.  Ill-typed facets are what a conforming XSD processor rejects beforehand;
+   on them Python's own exceptions escape (C17_xsd_bad_facet keeps one machine-checked). *)
+Theorem C17_xsd_own_exception : forall fuel schema draws,
+  (forall r, subel r schema -> is_tag (tag_of r) "restriction" = true -> rok r = true) ->
+  match parse_xsd fuel schema draws with PyErr _ => False | _ => True end.
+Proof. exact parse_xsd_own. Qed.
+Print Assumptions C17_xsd_own_exception.
+
+Theorem C17_xsd_bad_facet :
+  parse_xsd 20 (XEl (kw "schema") [] [XEl (kw "element") [(kw "name", kw "r")]
+     [XEl (kw "simpleType") [] [XEl (kw "restriction") [(kw "base", kw "xs:string")] [XEl (kw "enumeration") [] []]]]]) []
+  = PyErr EKeyError.
+Proof. exact bad_enumeration. Qed.
+Print Assumptions C17_xsd_bad_facet.
